@@ -531,8 +531,11 @@ pub mod non_blocking {
                 WriteState::Ready => {
                     // If we're in ready state, we can prepare another PDU
                     let total_len = (self.max_pdu_length + PDU_HEADER_SIZE) as usize;
-                    if self.buffer.len() + buf.len() <= total_len {
+                    if self.buffer.len() + buf.len() < total_len {
                         // Still have space in `self.buffer`, accumulate into buffer
+                        // (a write which fills the buffer exactly sends the PDU below:
+                        // with a full buffer the next call could not accept any data,
+                        // and returning `Ok(0)` makes `write_all` fail)
                         self.buffer.extend(buf);
                         Poll::Ready(Ok(buf.len()))
                     } else {
